@@ -617,6 +617,51 @@ def gen_cases(dirid, calc, tier):
                                         u.kids = [x for x in u.kids if x.name != L.name]
                         yield "I-hetero-list/%d" % n, (), c.user
 
+    # J: an unchecked section U with free content, plus ONE undeclared name at every other position of the tree
+    #    (below every description node that is not U or inside U, incl. U's parent and all ancestors), with U's branch
+    #    first / last in document order; and the dual: declared siblings of U supplied before / after U
+    for pU in paths:
+        if "unchecked" not in pU[-1].attrs:
+            continue
+        free = [N("zz_free", "1"), N("zz_sec", "", None, [N("zz_in", "x < y")])]
+        for q in [[]] + paths:
+            if len(q) >= len(pU) and all(x is y for x, y in zip(q, pU)):
+                continue                                   # U itself / inside U: exempt from the name check
+            above = all(x is y for x, y in zip(q, pU))     # q is an ancestor of U
+            for ufirst in (True, False):
+                c = Ctx(desc)
+                if ufirst:
+                    c.ensure(pU)
+                    c.ensure(q)
+                else:
+                    c.ensure(q)
+                    c.ensure(pU)
+                c = c.completed()
+                c.ensure(pU).kids = [k.clone() for k in free]
+                u = c.ensure(q)
+                if q and not q[-1].kids and "choices" in q[-1].attrs and u.value == "":
+                    u.value = second_legal(q[-1])
+                z = N("zz_undeclared", "1")
+                if above and not ufirst:
+                    u.kids.insert(0, z)                    # before the branch that leads to U
+                else:
+                    u.kids.append(z)
+                yield "J-unchecked-and-undeclared/" + ("after" if ufirst else "before"), (), c.user
+        sibs = [k for k in pU[-2].kids if k is not pU[-1]] if len(pU) > 1 else []
+        for group in [[k] for k in sibs] + [sibs]:
+            for ufirst in (True, False):
+                c = Ctx(desc)
+                if ufirst:
+                    c.ensure(pU)
+                for k in group:
+                    u = c.ensure(pU[:-1] + [k])
+                    if not k.kids:
+                        u.value = second_legal(k)
+                c.ensure(pU)
+                c = c.completed()
+                c.ensure(pU).kids = [k.clone() for k in free]
+                yield "J-unchecked-declared-siblings/" + ("after" if ufirst else "before"), (), c.user
+
     # F: pairs of leaves, both set to a legal non-default value (+ siblings reversed; + second one illegal)
     span = 10 ** 9 if thorough else 6
     for i in range(len(leaves)):
@@ -699,7 +744,9 @@ RULE = ("alphabet: every calculator description in xtp/share/xtp/xml (28 files, 
         "(quick: j-i<=6; thorough: all pairs) + sibling order reversed + second value illegal; G additional choice 'jobfile'; "
         "H all subsets of the first K (quick 5, thorough 8) leaf children of every section / list element; I every list section x "
         "every template x every leaf or OPTIONAL subtree L below it: 2 (thorough also 3) repetitions where some supply L and the "
-        "others omit it, all arrangements (each repetition must resolve against the pristine template). B,C,H both as is and "
+        "others omit it, all arrangements (each repetition must resolve against the pristine template); J every unchecked section U "
+        "filled with free content x one undeclared name below every other node of the description (ancestors of U included) x "
+        "U's branch first/last in document order, and declared siblings of U (each, and all) supplied before/after U. B,C,H both as is and "
         "with all REQUIRED nodes of the touched sections filled in; D also with a user-side unchecked= attribute (two readings allowed). "
         "oracle: independent interpreter of the description format predicting the full resolved tree (path->trimmed value for "
         "declared leaves and unchecked copies, presence for sections) or 'rejected, message names one of X'. "
@@ -738,7 +785,7 @@ def main():
                 rep.fail(key, "[%s %s] %s" % (calc, fam, what), case_string(dirid, calc, extra, xml))
             elif len(xml) < 260:
                 kind = cls if cls.startswith("reject") else "ok/" + fam.split("/")[0]
-                if kind not in sampled and fam[0] in "BCEHI":   # one written-out case per outcome kind
+                if kind not in sampled and fam[0] in "BCEHIJ":   # one written-out case per outcome kind
                     sampled.add(kind)
                     rep.samples.insert(0 if kind.startswith("ok") and len(sampled) % 2 else len(rep.samples),
                                        "%s %s: %s -> %s" % (calc, fam, xml, cls if cls.startswith("reject") else
